@@ -688,3 +688,13 @@ def run(facts, rep, ctx):
     round2.ts3b(facts, rep)
     round2.ts4b(facts, rep)
 
+
+
+_run_before_round5 = run
+
+
+def run(facts, rep, ctx):
+    """rules added after the fourth seeding round (rules/round5.py)"""
+    _run_before_round5(facts, rep, ctx)
+    from . import round5
+    round5.ts12(facts, rep)
